@@ -41,7 +41,7 @@ func init() {
 			"(jar) histories of Set / SetByHost / SetKeyValue / responses that set, replace, expire cookies / Get over 2-3 hosts and nested paths with clock advance and Release+reuse, compared with a reference jar after every operation; " +
 			"(fidelity) a history of 1-4 requests on one client (in a third of the runs also on the replaced default client), each request acquired (cl.R, AcquireRequest+SetClient, AcquireRequest alone, cl.<Method>(url, Config), client.<Method>(url, Config)), released (Close, ReleaseRequest+ReleaseResponse, not at all) and sent (Get/Post/Put/Patch/Delete/Head/Options, Custom incl. PURGE, SetMethod+SetURL+Send) another way, " +
 			"with headers, query parameters, form fields, cookies, path parameters set at client and request level through the single, map, multi-map, struct and Config setters (multi-valued keys, a value overridden by a later Set, nasty keys and values), user agent, referer, base URL, a query inside the URL, a body that is none / raw / JSON / XML / CBOR / url-encoded form / multipart with 1-3 files " +
-			"(AddFile, AddFileWithReader, AddFiles with AcquireFile and its setters, fixed or default boundary, with or without form fields), request and client timeouts against a transport delay on either side of both; the real fiber server reports what it parsed (c.MultipartForm for uploads); the whole history is sent twice on fresh clients (other map order, pooled Request/File objects of the first pass) and the two views compared. " +
+			"(AddFile, AddFileWithReader, AddFiles with AcquireFile and its setters, fixed or default boundary, with or without form fields), request and client timeouts against a transport delay on either side of both; in the fault stratum user request / response hooks (AddRequestHook, AddResponseHook) or the transport fail requests chosen by the tape, 2-3 further requests follow, and some neighbouring requests are acquired and configured before either is sent (a Request handed out while another holder still uses it is reported); the real fiber server reports what it parsed (c.MultipartForm for uploads); the whole history is sent twice on fresh clients (other map order, pooled Request/File objects of the first pass) and the two views compared. " +
 			"distinct = hash of (scenario, configuration, per operation outcome class); non-trivial = hand-off: a timeout and a response fell on the same instant or a request timed out while others were in flight; jar: a cookie expired or was replaced; fidelity: a value needed escaping, a file was uploaded or the history had more than one request",
 		Assumptions: []string{
 			"the transport is a stub (fasthttp RoundTripper): the request is serialised by fasthttp, handled by a real fiber app in the same bubble and the serialised response parsed back; connection handling of fasthttp is not exercised",
@@ -1026,9 +1026,13 @@ type fidReq struct {
 	delay   time.Duration
 	inurl   bool
 	body    fidBody
+	fault   string // "" · reqhook (a user request hook fails) · resphook (a user response hook fails) · transport (the transport returns an error)
+	pair    bool   // this request and the next one are acquired and configured before either is sent
 }
 
 func (rq *fidReq) conv() bool { return rq.acquire >= 3 }
+
+var errFidHook = errors.New("injected hook error")
 
 var (
 	fidValAlpha    = []string{"plain", "with space", "a&b=c", "ü", "", "x/y?z", "q\"uote", "per%cent", "semi;colon", "plus+", "#hash", "%41lias", "comma,sep"}
@@ -1528,6 +1532,12 @@ func (rq *fidReq) describe() string {
 			body += " fields: " + fidDescribe("form", b.form.calls)
 		}
 	}
+	if rq.fault != "" {
+		body += " | FAULT " + rq.fault
+	}
+	if rq.pair {
+		body += " | acquired together with the next request"
+	}
 	return fmt.Sprintf("request %s: %s %s via %s, %s, %s | %s | %s | %s | %s | ua=%q referer=%q timeout=%v delay=%v inurl=%v | %s", rq.tag, rq.method, acq, fire, rel,
 		[...]string{"client C", "default client D"}[rq.cli], fidDescribe("header", rq.hdr.calls), fidDescribe("param", rq.q.calls), fidDescribe("cookie", rq.ck.calls), fidDescribe("path", rq.pp.calls),
 		rq.ua, rq.ref, rq.timeout, rq.delay, rq.inurl, body)
@@ -1669,19 +1679,37 @@ func fidTag(v string) string {
 
 func clientFidelity(s *simrt.Sim, info *harness.RunInfo) {
 	fidDiskFiles()
+	faults := s.Chance(400)
+	info.Faults = faults
 	g := &fidGen{s: s}
 	nreq := s.Range(1, harness.Scale(4, 6))
 	clients := []*fidClient{g.client("C")}
 	if s.Chance(350) {
 		clients = append(clients, g.client("D"))
 	}
-	reqs := make([]*fidReq, nreq)
+	ntail := 0
+	if faults {
+		ntail = s.Range(2, 3) // after the requests that may fail the history goes on with 2-3 further ones
+	}
+	reqs := make([]*fidReq, nreq+ntail)
 	allTags := map[string]bool{"C": true, "D": true}
 	for i := range reqs {
 		reqs[i] = g.request(i, clients)
 		allTags[reqs[i].tag] = true
+		if faults && i < nreq && s.Chance(400) {
+			// a user hook or the transport fails this request
+			reqs[i].fault = simrt.PickS(s, "resphook", "reqhook", "transport", "resphook")
+			reqs[i].delay = 0
+		}
 	}
-	cfgLine := fmt.Sprintf("fidelity requests=%d clients=%d", nreq, len(clients))
+	for i := 0; i+1 < len(reqs); i++ {
+		// two requests alive at the same time (only where the harness holds the Request objects)
+		if faults && !reqs[i].conv() && !reqs[i+1].conv() && !reqs[i].pair && (i == 0 || !reqs[i-1].pair) && s.Chance(400) {
+			reqs[i].pair = true
+		}
+	}
+	nreq += ntail
+	cfgLine := fmt.Sprintf("fidelity requests=%d clients=%d faults=%v", nreq, len(clients), faults)
 	s.Logf("cfg %s", cfgLine)
 	h := newHasher().str(cfgLine)
 	for _, cc := range clients {
@@ -1761,9 +1789,72 @@ func clientFidelity(s *simrt.Sim, info *harness.RunInfo) {
 	app.Handler()
 	tr := &simTransport{s: s, app: app, plans: map[string]*tplan{}, wire: map[string][]byte{}}
 
-	send := func(hn string, cls []*client.Client, rq *fidReq) *fidOutcome {
+	// Bookkeeping of the Request objects that are in use: a Request the pool hands out must not be one that
+	// somebody still holds (a request object released twice is handed out twice).
+	live := map[*client.Request]string{} // Request in use -> token of the request it serves
+	hookReq := map[string]*client.Request{}
+	aborted := false
+	tokOfURL := func(u string) string {
+		tok, _, _ := strings.Cut(strings.TrimPrefix(strings.TrimPrefix(u, "http://a.example"), "/"), "/")
+		return tok
+	}
+	faultOf := func(tok string) string {
+		if i := atoi(tok[1:]); len(tok) > 1 && i >= 0 && i < len(reqs) {
+			return reqs[i].fault
+		}
+		return ""
+	}
+	inUse := func(req *client.Request, tok string) {
+		if t, ok := live[req]; ok && t != tok {
+			s.Fail("C18.fidelity.same-request-object-handed-out-twice", "the Request object acquired for %s is the one still in use by %s (acquired earlier, neither released by the caller nor by the client): whatever is configured on one shows up in the other", tok, t)
+			aborted = true
+		}
+		live[req] = tok
+	}
+	requestHook := func(_ *client.Client, r *client.Request) error {
+		tok := tokOfURL(r.URL())
+		hookReq[tok] = r
+		inUse(r, tok) // also sees the Request of the shorthand methods, which the caller never holds
+		if faultOf(tok) == "reqhook" {
+			s.Count("fault_request_hook")
+			return errFidHook
+		}
+		return nil
+	}
+	responseHook := func(_ *client.Client, _ *client.Response, r *client.Request) error {
+		if faultOf(tokOfURL(r.URL())) == "resphook" {
+			s.Count("fault_response_hook")
+			return errFidHook
+		}
+		return nil
+	}
+	// prepare acquires and configures the Request (nil for the shorthand methods, which do that inside)
+	prepare := func(hn string, cls []*client.Client, rq *fidReq) (*client.Request, bool) {
+		if rq.conv() {
+			return nil, false
+		}
 		tok := hn + strconv.Itoa(rq.idx)
-		tr.plans[tok] = &tplan{delays: []time.Duration{rq.delay}, fails: []bool{false}}
+		var req *client.Request
+		stale := false
+		switch rq.acquire {
+		case 0:
+			req = cls[rq.cli].R()
+		case 1:
+			req = client.AcquireRequest().SetClient(cls[rq.cli])
+		default:
+			req = client.AcquireRequest() // no client: Send uses the default client
+			if c := req.Client(); c != nil && c != client.C() {
+				stale = true
+				s.Count("probe_acquired_request_bound_to_other_client")
+			}
+		}
+		inUse(req, tok)
+		rq.applyTo(req)
+		return req, stale
+	}
+	send := func(hn string, cls []*client.Client, rq *fidReq, req *client.Request, stale bool) *fidOutcome {
+		tok := hn + strconv.Itoa(rq.idx)
+		tr.plans[tok] = &tplan{delays: []time.Duration{rq.delay}, fails: []bool{rq.fault == "transport"}}
 		cc := clients[rq.cli]
 		url := "/" + tok + "/u/:id/n/:name/i/:idx"
 		if !cc.baseURL {
@@ -1772,8 +1863,7 @@ func clientFidelity(s *simrt.Sim, info *harness.RunInfo) {
 		if rq.inurl {
 			url += "?inurl=" + rq.tag + "&both=u" + fidSep + rq.tag
 		}
-		out := &fidOutcome{}
-		var req *client.Request
+		out := &fidOutcome{stale: stale}
 		var resp *client.Response
 		var err error
 		start := time.Now()
@@ -1821,19 +1911,6 @@ func clientFidelity(s *simrt.Sim, info *harness.RunInfo) {
 				}
 			}
 		} else {
-			switch rq.acquire {
-			case 0:
-				req = cls[rq.cli].R()
-			case 1:
-				req = client.AcquireRequest().SetClient(cls[rq.cli])
-			default:
-				req = client.AcquireRequest() // no client: Send uses the default client
-				if c := req.Client(); c != nil && c != client.C() {
-					out.stale = true
-					s.Count("probe_acquired_request_bound_to_other_client")
-				}
-			}
-			rq.applyTo(req)
 			switch {
 			case rq.fire == 2:
 				resp, err = req.SetMethod(rq.method).SetURL(url).Send()
@@ -1860,6 +1937,10 @@ func clientFidelity(s *simrt.Sim, info *harness.RunInfo) {
 		}
 		out.elapsed = time.Since(start)
 		out.err = err
+		if req == nil {
+			req = hookReq[tok]
+		}
+		released := false
 		if err == nil {
 			out.status = resp.StatusCode()
 			out.body = string(resp.Body())
@@ -1867,12 +1948,22 @@ func clientFidelity(s *simrt.Sim, info *harness.RunInfo) {
 			switch rq.release {
 			case 0:
 				resp.Close()
+				released = true
 			case 1:
 				client.ReleaseRequest(req)
 				client.ReleaseResponse(resp)
+				released = true
 			}
-		} else if req != nil && rq.release != 2 {
+		} else if rq.fault == "resphook" || rq.conv() {
+			// the client closes the response, and with it the request, when a response hook fails; and nobody but the
+			// client ever held the Request of a failed shorthand call: it is free to recycle it
+			released = true
+		} else if rq.release != 2 {
 			client.ReleaseRequest(req)
+			released = true
+		}
+		if released && req != nil {
+			delete(live, req)
 		}
 		s.Logf("%s %s done after %v err=%s status=%d echo=%q", tok, rq.method, out.elapsed, fidErr(err), out.status, out.echo)
 		return out
@@ -1882,21 +1973,42 @@ func clientFidelity(s *simrt.Sim, info *harness.RunInfo) {
 		for i, cc := range clients {
 			cls[i] = client.NewWithClient(&fasthttp.Client{Transport: tr})
 			cc.apply(cls[i])
+			cls[i].AddRequestHook(requestHook)
+			cls[i].AddResponseHook(responseHook)
 		}
 		if len(cls) > 1 {
 			restore := client.Replace(cls[1])
 			defer restore()
 		}
 		outs := make([]*fidOutcome, len(reqs))
-		for i, rq := range reqs {
-			outs[i] = send(hn, cls, rq)
+		for i := 0; i < len(reqs) && !aborted; i++ {
+			rq := reqs[i]
+			req, stale := prepare(hn, cls, rq)
+			if rq.pair && !aborted {
+				nx := reqs[i+1]
+				req2, stale2 := prepare(hn, cls, nx)
+				if aborted {
+					break
+				}
+				outs[i] = send(hn, cls, rq, req, stale)
+				outs[i+1] = send(hn, cls, nx, req2, stale2)
+				i++
+				continue
+			}
+			if aborted {
+				break
+			}
+			outs[i] = send(hn, cls, rq, req, stale)
 		}
 		simrt.Sleep(8 * time.Second) // requests that timed out still reach the server later
 		return outs
 	}
 	outA := history("a")
-	outB := history("b") // same configuration: other map order, pooled objects of history a
-	if s.Failed() {
+	var outB []*fidOutcome
+	if !aborted {
+		outB = history("b") // same configuration: other map order, pooled objects of history a
+	}
+	if s.Failed() || aborted {
 		return
 	}
 
@@ -1998,6 +2110,24 @@ func clientFidelity(s *simrt.Sim, info *harness.RunInfo) {
 		own := map[string]bool{cc.tag: true, rq.tag: true}
 		stale = out.stale
 		defer func() { stale = false }()
+
+		// injected failures: the call returns that error, and a request whose request hook failed is never sent
+		if rq.fault != "" {
+			what := map[string]string{"reqhook": "a user request hook returned an error", "resphook": "a user response hook returned an error", "transport": "the transport returned an error"}[rq.fault]
+			want := errFidHook
+			if rq.fault == "transport" {
+				want = errTransport
+			}
+			switch {
+			case out.err == nil:
+				fail("error-not-returned", "%s: %s for this request, but the call returned no error (status=%d body=%q)", tok, what, out.status, out.body)
+			case !errors.Is(out.err, want):
+				fail("request", "%s: %s for this request, the call failed with another error: %s", tok, what, fidErr(out.err))
+			case rq.fault == "reqhook" && seen[tok] != nil:
+				fail("sent-despite-failed-request-hook", "%s: %s, yet the request reached the server", tok, what)
+			}
+			return
+		}
 
 		// time-out: the request-level one decides when set, else the client-level one
 		eff := rq.timeout
@@ -2347,7 +2477,16 @@ func clientFidelity(s *simrt.Sim, info *harness.RunInfo) {
 	if nreq > 1 {
 		s.Count("probe_history_on_one_client")
 	}
-	for _, rq := range reqs {
+	for i, rq := range reqs {
+		if rq.pair {
+			s.Count("probe_two_requests_held_at_once")
+		}
+		if rq.fault != "" || outA[i].err != nil {
+			s.Count("probe_history_continues_after_failed_request")
+		}
+		if rq.fault == "resphook" && rq.conv() {
+			s.Count("probe_response_hook_fails_shorthand_request")
+		}
 		if rq.cli == 1 {
 			s.Count("probe_request_through_default_client")
 		}
